@@ -42,6 +42,10 @@ SUITES = {
     "diff_two":    ("diff",   "heap",  ["--two"],             "debug",   (6, 60),   (200, 200)),
     "diff_set":    ("diff",   "heap",  ["--set", "--two"],    "debug",   (6, 60),   (200, 200)),
     "diff_zst":    ("diff",   "zst",   [],                    "debug",   (6, 30),   (100, 100)),
+    # large maps, counters only; runs = number of files, events = n (elements inserted)
+    "big_plain":   ("big",    "plain", [],                    "release", (1, 2),    (30000, 150000)),
+    "big_heap":    ("big",    "heap",  [],                    "debug",   (1, 1),    (6000, 40000)),
+    "big_collide": ("big",    "plain", ["--hm", "2"],         "release", (1, 1),    (1500, 6000)),
     "defects":     ("scripts", None,   [],                    "both",    (1, 1),    (0, 0)),
 }
 
@@ -75,9 +79,9 @@ ALL_MAP = ["core_heap", "core_plain", "core_zst", "rel_heap", "defects"]
 
 PROPS = {
     "C01": dict(suites=["tomb_plain", "tomb_heap", "core_heap", "core_plain", "core_zst", "rel_heap", "rel_plain", "defects"], mc=["Small", "CountR8"]),
-    "C02": dict(suites=["tomb_plain", "tomb_heap", "core_plain", "rel_plain", "core_heap", "defects"], mc=["CountR8"]),
-    "C03": dict(suites=["tomb_plain", "tomb_heap", "core_plain", "core_heap", "rel_plain", "set_heap", "defects"], mc=["Small", "CountR8"]),
-    "C04": dict(suites=["tomb_plain", "tomb_heap", "core_plain", "rel_plain", "limits_dbg", "limits_rel", "two_heap", "defects"], mc=["Small", "CountR8"]),
+    "C02": dict(suites=["big_plain", "big_heap", "big_collide", "tomb_plain", "tomb_heap", "core_plain", "rel_plain", "core_heap", "defects"], mc=["CountR8"]),
+    "C03": dict(suites=["big_plain", "big_heap", "big_collide", "tomb_plain", "tomb_heap", "core_plain", "core_heap", "rel_plain", "set_heap", "defects"], mc=["Small", "CountR8"]),
+    "C04": dict(suites=["big_plain", "big_heap", "big_collide", "tomb_plain", "tomb_heap", "core_plain", "rel_plain", "limits_dbg", "limits_rel", "two_heap", "defects"], mc=["Small", "CountR8"]),
     "C05": dict(suites=["tomb_plain", "tomb_heap", "core_heap", "rel_heap", "core_zst", "set_heap", "set_zst", "two_heap", "defects"], mc=["Small", "CountR8"]),
     "C06": dict(suites=["core_heap", "rel_heap", "two_heap", "set_heap", "set_two", "defects"], mc=["Small"]),
     "C07": dict(suites=["fault_heap", "fault_heap_rel", "fault_plain", "fault_two", "fault_set", "fault_zst", "defects"], mc=[]),
